@@ -8,6 +8,7 @@ import (
 	"net"
 	"strings"
 	"sync"
+	"sync/atomic"
 	"time"
 
 	sasl "github.com/emersion/go-sasl"
@@ -102,6 +103,8 @@ func roSx(o *smtp.RcptOptions) *Sx {
 
 const tripHang = 30 * time.Second
 
+var tripCount int64
+
 func RunTrip(c TripCase) *Sx {
 	be := &RecBackend{script: cloneScript(c.Script), LMTPSess: c.Cfg.LMTPSession, NoSync: true}
 	if c.Cfg.HasAuth {
@@ -136,6 +139,11 @@ func RunTrip(c TripCase) *Sx {
 	}
 	cl.CommandTimeout = 6 * time.Second
 	cl.SubmissionTimeout = 6 * time.Second
+	// every other trip also writes the client's debug transcript (a field the client reads on every
+	// octet it sends or receives)
+	if atomic.AddInt64(&tripCount, 1)%2 == 0 {
+		cl.DebugWriter = io.Discard
+	}
 	if c.CmdTmo != 0 {
 		cl.CommandTimeout = c.CmdTmo
 	}
